@@ -37,6 +37,21 @@ CLAIMED = {
         "16-byte length, decode-after-encode, field consistency (height byte, Max3000 width sum, Horizon width = A1*B1+A2*B2, bits per column) against dims, the virtual sign's derivation configDims t.toBytes = dims t, totality (no panic) of decoding, rejection of every length other than 16, and acceptance of a 16-byte block iff its (family,id) is a supported type's — for all byte strings. Tie: all 11 types, all 65536 (family,id) pairs, random strings of length 0..=40, and a virtual sign configured with each block accepting exactly one page of the type's size.",
         "The model's type table is a third copy of the two Rust tables; a typo kept in sync between the two Rust tables shows as a correspondence difference or a broken field-consistency oracle.",
         "§6 C19"),
+    "C12": (
+        "Lean 4 theorems on a hand-written model + differential correspondence model vs code; case analysis over every message kind, induction over bus and history",
+        "vstep_no_panic (any sign state, reachable or not, any message), busStep_no_panic (any bus), busRun_no_panic (any history), transfer_ends_failed_or_received, configDims_no_panic (arbitrary block contents, no overflow) proved. Tie: recorded crash histories first, then ~1500 (quick) guided random walks on 1..3-sign buses with lost/short/extra/repeated chunks, wrong counts, arbitrary and overflowing configuration blocks; thorough adds a 70000-chunk transfer; catch_unwind is the oracle.",
+        "The model mirrors the tree with repairs F2-F5 (each first reported by this check on the pinned tree, then fixed in /repo: 32f32dc, fb078ba, b3604fe, cae3100). Allocation failure and log formatting are outside the model.",
+        "§6 C12"),
+    "C13": (
+        "Lean 4 theorems on a hand-written model + differential correspondence model vs code; reachable-state invariant by induction over message histories",
+        "query_spec, request_legal / request_illegal against a literal legality table, count_spec, pixel_chunk_counted + chunks_after_sendAll + announce_matches_iff (count matches iff exactly that many chunks were accepted, also beyond 65535), reset_blank / goodbye_blank, foreign_silent, pages_assembled (stored pages = assemble of the chunk log, for every chunk sequence) and reachable_inv (every stored page is a complete page of the configured size; nothing buffered outside a transfer) proved for all histories. Tie: breadth-first exploration of the real VirtualSign's hashable state over a 28-symbol alphabet (both flip styles, tiny 1-chunk pages) with every transition compared to the model and to an independent Rust port of the documented machine, plus guided walks with real sign types.",
+        "The spec tables (legal / target / assemble) live in lean/Flipdot/Props/C13.lean; the model is tied to virtual_sign_bus.rs by the differential run on public observables only (replies, state, sign_type, pages).",
+        "§6 C13"),
+    "C14": (
+        "Lean 4 theorems on a hand-written model + differential correspondence model vs code; induction over the bus list with distinct addresses",
+        "reply_addr, absent_noop, addressed_isolated, reply_is_own (Nodup addresses), data_nonreceiving_unchanged / unaddressed_only_receiving (uses the reachable-state invariant) and bus_inv_preserved proved for buses of any size. Tie: guided walks on 1..4-sign buses with mixed styles, absent addresses and two signs mid-transfer at once; per-message snapshot oracle on every non-addressed sign and a solo-clone oracle for the reply.",
+        "Finding F5 (a StartReset-abandoned transfer flushed by a later unaddressed DataChunksSent) was reported here and fixed in /repo (cae3100).",
+        "§6 C14"),
 }
 
 PENDING = {}
